@@ -10,7 +10,7 @@
 (* command produced responses; "fixed": always for transactions.              *)
 EXTENDS Integers, Sequences, FiniteSets, TLC
 
-CONSTANTS Replicas, Clients, MaxLog, Mode
+CONSTANTS Replicas, Clients, MaxLog, MaxReads, Mode
 
 VARIABLES log,        \* committed log: sequence of [c (client), kind ("w" | "e")]
           applied,    \* replica -> applied index
@@ -67,7 +67,7 @@ Next == \/ \E c \in Clients, k \in {"w", "e"}, n \in Replicas : Propose(c, k, n)
         \/ \E c \in Clients, n \in Replicas, lin \in BOOLEAN : StartRead(c, n, lin)
 Spec == Init /\ [][Next]_vars
 
-Bound == Len(acks) <= MaxLog /\ Len(reads) <= 2
+Bound == Len(acks) <= MaxLog /\ Len(reads) <= MaxReads
 
 (***************************************************************************)
 (* C10                                                                     *)
